@@ -14,7 +14,7 @@ RULE = (
     "Rule-based state machine over one Bec2File (wrapping a Bf3File) and a pure-Python model (ordered list of non-configuration components, most recent configuration, "
     "expected derived comments, expected auth blocks). Rules: set_config(cfg) with generated configurations (with/without each 0x0620 naming value, bus-address flag, "
     "security code), derive_comments(cfg), derive_auth_blocks(cfg, cust_key_support), insert a firmware component with or without a TYPE tag at any index, add/remove an "
-    "unrelated comment, write + read back (state replaced by what was read). After every step: at most one TYPE=configuration component, exactly one once set, LAST right "
+    "unrelated comment, edit the tags of the configuration component found in the file (add a tag, clear the reboot request: the component keeps the edit until the next set_config replaces it by a fresh one), write + read back (state replaced by what was read). After every step: at most one TYPE=configuration component, exactly one once set, LAST right "
     "after set_config, decoding (independent TLV decoder) to the most recent configuration only; every other component unchanged and in order; derived comments "
     "(Configuration, DeviceSettings, RequiresBusAddress) equal the model's function of the most recently derived configuration, other comments untouched; on a file without "
     "blocks derivation yields exactly the requested initial block plus an update block (code, identifier version) iff both exist; never two blocks of one kind. "
@@ -24,7 +24,7 @@ ASSUMPTIONS = [
     "expected derived comment text comes from the harness's own identifier formatter (vlib.cfgidmodel), which C12 checks against the library exhaustively",
     "after write+read-back components are compared by value (description, content up to the declared length), not by object identity",
 ]
-REQUIRED_CLASSES = ["set_config>=2", "untyped-before-config", "derive_comments>=2", "derive_blocks>=2", "readback>=1", "insert-untyped>=1"]
+REQUIRED_CLASSES = ["set_config>=2", "untyped-before-config", "derive_comments>=2", "derive_blocks>=2", "readback>=1", "insert-untyped>=1", "set_config-after-config-tags-edited"]
 
 B2, B3 = sut.B2, sut.B3
 CUST_KEY = bytes(range(16))
@@ -75,6 +75,8 @@ class Driver:
         self.untyped_before_cfg = False
         self.diff_derive = False
         self.last_derived_cfg = None
+        self.m_cfg_desc = None
+        self.n_cfg_edit = self.n_set_after_edit = 0
 
     @property
     def f(self):
@@ -92,9 +94,35 @@ class Driver:
         except Exception as e:
             raise Violation("set_config raised %s: %s" % (type(e).__name__, e))
         self.n_set += 1
+        if self.n_cfg_edit:
+            self.n_set_after_edit += 1
         self.m_comps = [x for x in self.m_comps if x[0] != "cfg"] + [("cfg",)]
         self.m_cfg, self.m_extra = [tuple(e) for e in cfg], list(extra)
+        self.m_cfg_desc = list(CFG_DESC)
         self._check_components(after_set=True)
+
+    def op_edit_cfg_tags(self, how):
+        """'other edits': the caller changes the tags of the configuration component it finds in the file (adds one, clears the reboot request).
+        That component keeps the edit - the NEXT set_config creates a component that depends on the new configuration only."""
+        i = next((i for i, x in enumerate(self.m_comps) if x[0] == "cfg"), None)
+        if i is None:
+            return
+        d = self.f.components[i].description
+        if how == 0:
+            d[0xC8] = b"\x07"
+        elif how == 1:
+            d[0xC5] = b"\x00"
+        else:
+            d.pop(0xC8, None)
+        md = dict(self.m_cfg_desc)
+        if how == 0:
+            md[0xC8] = b"\x07"
+        elif how == 1:
+            md[0xC5] = b"\x00"
+        else:
+            md.pop(0xC8, None)
+        self.m_cfg_desc = list(md.items())
+        self.n_cfg_edit += 1
 
     def op_derive_comments(self, cfg):
         c = S.config_to_dict([tuple(e) for e in cfg])
@@ -218,6 +246,9 @@ class Driver:
             if m[0] == "cfg":
                 if dict(c.description).get(0xC3) != b"\x03":
                     raise Violation("component %d should be the configuration" % i)
+                if list(c.description.items()) != self.m_cfg_desc:
+                    raise Violation("configuration component carries tags %r, expected %r (the tags set_config gives it, plus the caller's edits to THIS component since; %d set_config calls, %d tag edits so far)" % (
+                        list(c.description.items()), self.m_cfg_desc, self.n_set, self.n_cfg_edit))
                 continue
             if list(c.description.items()) != m[1] or bytes(c.blob) != m[2]:
                 raise Violation("firmware component %d changed or moved: %r / %r vs model %r" % (i, list(c.description.items()), bytes(c.blob)[:20], m))
@@ -260,6 +291,8 @@ class Driver:
             rec.cls("derive_blocks>=2")
         if self.n_rb >= 1:
             rec.cls("readback>=1")
+        if self.n_set_after_edit:
+            rec.cls("set_config-after-config-tags-edited")
         if self.n_untyped >= 1:
             rec.cls("insert-untyped>=1")
         if (self.n_set >= 2 and self.untyped_before_cfg) or self.diff_derive or (self.n_set >= 2 and self.n_rb >= 1):
@@ -301,7 +334,9 @@ RULES = {
     "insert_fw": dict(pos=st.integers(0, 6), typed=st.booleans(), blob=st.binary(min_size=1, max_size=24), tagval=st.integers(0, 2)),
     "comment": dict(key=st.sampled_from(["FirmwareId", "Creator", "x", "Configuration "]), value=st.sampled_from(["1", "abc", ""]), remove=st.booleans()),
     "readback": {},
+    "edit_cfg_tags": dict(how=st.integers(0, 2)),
 }
+CFG_DESC = [(0xC3, b"\x03"), (0xC2, b"\x02"), (0xC1, b"\x03"), (0xC5, b"\x01")]
 
 
 def parts(tier):
